@@ -218,6 +218,18 @@ CHECKS = {
         note="Trusted: CPython; the table of documented moments is taken from the property statement.",
         technique="exhaustive enumeration of the misuse x decorator x callable-kind product, staged execution on the real code",
         design="3/C19"),
+    "C20": dict(
+        text="Exhaustive enumeration of a finite configuration space: sub-processes with PYTHONHASHSEED from a fixed list (6 quick / "
+             "10 thorough) each run all 24 keyword-argument permutations x 3 repetitions with other violations in between, "
+             "dict insertion orders, 3-element sets with programmed hashes in all 6 iteration orders, unrepresentable arguments "
+             "for lambda and named conditions, _ARGS/_KWARGS named / not named, 25 values around the a_repr limits x default "
+             "a_repr and two user a_repr x pre/post/invariant, failing all() witnesses, and the depth-1 expression grammar. "
+             "Messages must be byte-identical across seeds, permutations and repetitions; every value line equals the "
+             "contract's own a_repr.repr(value); value lines are sorted by expression text.",
+        note="Trusted: CPython, reprlib (its sorting of sets/dicts needs orderable elements). The seed list is a bounded enumeration; "
+             "exhaustive refers to that list.",
+        technique="exhaustive enumeration of keyword permutations x hash seeds x repetitions x size classes in sub-processes, cross-run byte comparison",
+        design="3/C20"),
 }
 
 NOT_APPLICABLE = []
